@@ -58,6 +58,13 @@ class C01(Prop):
             opts = [[88, False], [88, True], [r.randint(20, 60), r.random() < 0.5], [r.randint(6, 20), r.random() < 0.5],
                     [r.choice([0, -1, 10 ** 6]), r.random() < 0.5]]
             yield {"kind": "doc", "seed": r.getrandbits(40), "profile": prof, "opts": opts}
+        for i in range(6 if tier == "quick" else 60):
+            tag_o, tag_c = r.choice([("{% field %}", "{% /field %}"), ("{# a #}", "{# /a #}"), ("<!-- f -->", "<!-- /f -->")])
+            num = r.choice(["1999", "7", "12", "1"])
+            a = " ".join(plain_word(r, 8) for _ in range(r.randint(2, 6)))
+            b = " ".join(plain_word(r, 8) for _ in range(r.randint(1, 5)))
+            yield {"kind": "tagnum", "text": f"{tag_o}\nSome {a} okay.\n{num}\\. {b} why?\n{tag_c}\n",
+                   "opts": [[88, False], [88, True], [r.randint(20, 60), r.random() < 0.5]]}
         nh = 500 if tier == "quick" else 5000
         for i in range(nh):
             n = r.randint(3, 14)
@@ -84,6 +91,33 @@ class C01(Prop):
     def check(self, case, col: Collector):
         getattr(self, "_check_" + case["kind"])(case, col)
 
+    # ------------------------------------------------------------------ escaped ordered marker in a paragraph with tag lines
+    def _check_tagnum(self, case, col):
+        """Sub-workload for the listed finding KF-C01-escaped-number-in-tag-paragraph (the G-doc generator keeps escaped
+        ordered markers out of paragraphs that carry tags)."""
+        text = case["text"]
+        ref = astn.tree(astn.reference_input(text))
+        for (w, sem) in case["opts"]:
+            col.case()
+            col.mon("treeA")
+            mode = "semantic" if sem else "fill"
+            out = fm.fmt(text, width=w, semantic=sem)
+            if isinstance(out, fm.Raised):
+                col.count("raised_cases_left_to_C12")
+                continue
+            col.count("tagnum_cases")
+            got = astn.tree(out)
+            if got != ref:
+                df = astn.first_diff(ref, got)
+                # the mechanism, checked: the escape the source had at the start of a continuation line is gone, that line now
+                # looks like a list item, and a blank line was put between it and the tag line next to it
+                m = re.search(r"(?m)^(\d+)\\\.", text)
+                lines = out.split("\n")
+                mech = bool(m) and any(re.match(rf"{m.group(1)}\.( |$)", ln) for ln in lines) and "" in lines[:-1]  # the input has no blank line
+                desc = (f"C01/tag-paragraph/escaped-number-at-line-start-read-as-list-item/{mode}" if mech else
+                        f"C01/tree/tagnum/{kind_of(df[1])}->{kind_of(df[2])}/{mode}")
+                col.violation("treeA", desc, dict(case, opts=[[w, sem]]), {"output": out[:300], "path": list(df[0])})
+
     # ------------------------------------------------------------------ documents
     def _check_doc(self, case, col):
         d = gen_doc(case["seed"], case["profile"], layout_seed=case.get("layout_seed"))
@@ -99,6 +133,11 @@ class C01(Prop):
             # heading whose text contains an escaped pipe is a table for markdown-it): oracle B has no common ground
             b_ok = False
             col.count("oracleB_skipped_readers_disagree_on_input")
+        if b_ok and re.search(r"(?<![~\\])~(?!~)", ref_text):
+            # GFM reads one tilde as a strikethrough delimiter (flowmark's reader does, and writes it back as '~~');
+            # markdown-it only knows '~~': the same kind of dialect difference, at the inline level
+            b_ok = False
+            col.count("oracleB_skipped_single_tilde_dialect")
         for f in feats:
             col.hist("features", f)
         for (w, sem) in opts:
